@@ -11,7 +11,7 @@ def elemParams : String → Option (Nat × Nat)
 
 def prefixWidth : String → Option Nat
   | "p16" => some 2 | "p32" => some 4 | "p64" => some 8 | "p128" => some 16
-  | "p8" => some 1 | "r16" => some 2 | _ => none
+  | "p8" => some 1 | "r16" => some 2 | "p24" => some 3 | "p48" => some 6 | _ => none
 
 /-- alignment of the prefix type itself: the Pod integers and `u8` are align-1, the primitive `u16` is not -/
 def prefixAlign : String → Nat
